@@ -18,9 +18,9 @@ CHECKS = {
    note="Underlying clock is harness-controlled; timestamps older than the last adjustment are not converted.",
    technique="stateful property-based testing against an exact reference model, with shrinking"),
  "C10": dict(level="exploration", design="DESIGN.md §4 C10",
-   text="Stateful generated histories on a real master port (E2E and P2P) with transmit/receive times over the whole 80-bit range and arbitrary request headers; every emitted frame is decoded by the independent reference codec and compared with exact integer expectations; two 70 000-emission runs per message type cross the sequence wrap; global monitors assert <= 1 SendEvent per action set, size <= 1024 and decodability by the library's own parser.",
+   text="Stateful generated histories on a real master port (E2E and P2P) with transmit/receive times over the whole 80-bit range and arbitrary request headers; every emitted frame is decoded by the independent reference codec and compared with exact integer expectations; two 70 000-emission runs per message type cross the sequence wrap; global monitors assert <= 1 SendEvent per action set, size <= 1024 and decodability by the library's own parser. Plus an end-to-end part: the master port of the real daemon binary (private network namespace) is watched while generated Delay_Req frames are sent to it; wire timestamps are compared with the harness's own clock readings within stated real-time tolerances, pairing / echo / sequence rules exactly.",
    note="Request corrections |c| >= 2^62 belong to C03. minorVersionPTP of Delay_Resp (echoed from the request) is not asserted.",
-   technique="stateful property-based testing with exact arithmetic oracle on decoded frames"),
+   technique="stateful property-based testing with exact arithmetic oracle on decoded frames + generated black-box scenarios against the real daemon process"),
  "C09": dict(level="exploration", design="DESIGN.md §4 C09",
    text="Schedule exploration over message deliveries of a port made slave by the protocol: exhaustive enumeration of all schedules up to length 6 (thorough 7) over a 7-symbol alphabet plus sampled schedules with duplication, omission, reordering, late transmit timestamps, non-parent traffic, parent switches and delay-id wrap-around; every Measurement handed to a recording filter must equal bit-for-bit the IEEE formula of one exchange with matching sequence id from the current parent (exact integer oracle).",
    note="Double transmit timestamps are unrepresentable through the public API. A vacuity guard (clean in-order exchange must yield two measurements) exits 2, not 1.",
